@@ -374,6 +374,11 @@ theorem C01_fn_revoke_request {K S : Type} (ptf : Nat → Nat)
       refine ⟨rfl, fun h => absurd h ?_⟩
       simpa using ho
 
+-- non-vacuity of the hypotheses of `C01_fn_revoke_request`: next = 1 with a staged commitment, a total key store
+example :=
+  C01_fn_revoke_request (K := Unit) (S := Nat) (fun n => n) (fun _ i => some i) (fun s => some s) (fun _ i => i) (fun s => s)
+    (fun _ _ => rfl) (fun _ => rfl) { slot := .ready, next := 1, cur := some 0, nextInfo := some 1 } () 1 rfl (by decide)
+
 /-! ### `EnforcementState::new` (validator.rs:696): the state every channel starts from -/
 
 /-- a model channel read as ALL thirteen fields of `EnforcementState` (`initial_holder_value` is not part of the model) -/
